@@ -56,6 +56,7 @@ def run(ctx):
     # G4: seeded random input scripts with hard links, overwrites keeping some chunks, renames
     hists += fc.random_scripts(rng, 400 if ctx.thorough else 70, 12, WEIGHTS)
     hists += fc.revert_scripts(rng, 150 if ctx.thorough else 20)
+    hists += fc.linked_subtree_scripts(rng, 48 if ctx.thorough else 16)
     hists = fc.finding_scripts("C20") + hists
     fc.drive_and_judge(ctx, hists, nontrivial, mutate, ["C20"])
     ctx.rule = ("executions = one TLC witness history per (namespace state incl. link records and scheduled chunks, last "
